@@ -69,7 +69,10 @@ class _PushbackReader(io.RawIOBase):
             size = min(len(buffer), len(self._head))
             buffer[:size], self._head = self._head[:size], self._head[size:]
             return size
-        return self._rest.readinto(buffer)  # type: ignore[attr-defined, no-any-return]
+        # A source that is itself buffered (pipe or socket file object) would block in
+        # readinto() until the whole buffer is filled; readinto1() returns what has arrived.
+        readinto = getattr(self._rest, "readinto1", None) or self._rest.readinto  # type: ignore[attr-defined]
+        return readinto(buffer)  # type: ignore[no-any-return]
 
 
 def frame_iterator(inp: IO[bytes]) -> Generator[jelly.RdfStreamFrame]:
